@@ -147,11 +147,21 @@ func (wd *World) SetProbe(id string, fail bool, delay time.Duration) {
 
 // TaskSpec describes one submission.
 type TaskSpec struct {
+	// Name is the FULL task name (the manager's key and what wait lists use): "<NS>:<Short>", or Short alone
 	Name  string               `json:"name"`
+	NS    string               `json:"ns,omitempty"`
+	Short string               `json:"short,omitempty"`
 	Wait  []string             `json:"wait"`
 	Cmds  []string             `json:"cmds"` // probe ids, in order
 	Lock  commservices.LockMap `json:"-"`
 	scope app.Scope
+}
+
+func (t *TaskSpec) shortName() string {
+	if t.Short != "" {
+		return t.Short
+	}
+	return t.Name
 }
 
 // Submit submits a task through the runner with its own isolated scope (so that tasks
@@ -171,8 +181,8 @@ func (wd *World) Submit(t *TaskSpec) error {
 	wd.Log.Emit(map[string]interface{}{"ev": "submit.start", "name": t.Name, "wait": wait, "cmds": t.Cmds})
 	err := wd.Runner.Run(pipservices.Pip{
 		Context:    pipservices.PipContext{In: gio.NewInput(strings.NewReader(body.String())), Out: gio.NewNilOutput(), Err: gio.NewNilOutput(), CWD: cwd, Scope: t.scope},
-		Name:       t.Name,
-		Namespaces: namespaces.NewNamespaces(pipservices.NamasepacesParams{}),
+		Name:       t.shortName(),
+		Namespaces: namespaces.NewNamespaces(pipservices.NamasepacesParams{Task: t.NS}),
 		Sandbox:    "self",
 		Lock:       t.Lock,
 		Wait:       t.Wait,
